@@ -372,6 +372,16 @@ func (vfs *OrefaFS) Link(oldname, newname string) error {
 		return &os.LinkError{Op: op, Old: oldname, New: newname, Err: vfs.err.NotADirectory}
 	}
 
+	// A directory is locked before its entries, as a directory handle does when it lists them.
+	if nParent != oChild {
+		nParent.mu.Lock()
+		defer nParent.mu.Unlock()
+
+		if !nParent.mode.IsDir() {
+			return &os.LinkError{Op: op, Old: oldname, New: newname, Err: vfs.err.NotADirectory}
+		}
+	}
+
 	oChild.mu.Lock()
 	defer oChild.mu.Unlock()
 
@@ -386,13 +396,6 @@ func (vfs *OrefaFS) Link(oldname, newname string) error {
 
 	if nParent == oChild {
 		// newname is below oldname, which is not a directory.
-		return &os.LinkError{Op: op, Old: oldname, New: newname, Err: vfs.err.NotADirectory}
-	}
-
-	nParent.mu.Lock()
-	defer nParent.mu.Unlock()
-
-	if !nParent.mode.IsDir() {
 		return &os.LinkError{Op: op, Old: oldname, New: newname, Err: vfs.err.NotADirectory}
 	}
 
@@ -891,12 +894,19 @@ func (vfs *OrefaFS) Rename(oldname, newname string) error {
 		return &os.LinkError{Op: op, Old: oldname, New: newname, Err: err}
 	}
 
-	nParent.mu.Lock()
-	defer nParent.mu.Unlock()
+	// The two directories are locked an ancestor before its descendant, as a directory handle
+	// locks a directory before the entries it lists.
+	first, second := nParent, oParent
+	if strings.HasPrefix(nDirName, strings.TrimSuffix(oDirName, string(vfs.PathSeparator()))+string(vfs.PathSeparator())) {
+		first, second = oParent, nParent
+	}
 
-	if nParent != oParent {
-		oParent.mu.Lock()
-		defer oParent.mu.Unlock()
+	first.mu.Lock()
+	defer first.mu.Unlock()
+
+	if second != first {
+		second.mu.Lock()
+		defer second.mu.Unlock()
 	}
 
 	if nChildOk {
